@@ -21,6 +21,9 @@ BUILTINS = ['list', 'len', 'id', 'object', 'dict', 'tuple', 'reversed', 'isinsta
 CONSTRUCTORS = ['Seq', 'List', 'Left', 'Right', 'Opt', 'Some', 'Sep', 'Choice', 'Expect', 'ExpectNot', 'Skip', 'Longest',
                 'Fail', 'Backtrack', 'Let', 'Where', 'Apply', 'Rule', 'Class', 'Call', 'Ref', 'Str', 'Regex', 'Byte',
                 'Discard', 'KeywordArg', 'OperatorTable', 'PythonExpression']
+# locals and parameters of the runtime's own functions, and the lambda parameter the renderer uses
+RUNTIME_LOCALS = ['text', 'pos', 'fullparse', 'node', 'stack', 'memo', 'key', 'gtor', 'result', 'visited', 'callbacks',
+                  'field', 'child', 'parent', 'kw', 'other', 'index', 'column', 'message', 'start_pos', 'v_']
 PLAIN = ['fresh', 'Fresh', 'x9', 'CamelCase', 'snake_case', 'ALLCAPS']
 # documented API of a generated module (the property excludes these) and words the grammar language itself reserves
 API = {'parse', 'Infix', 'Prefix', 'Postfix', 'ParseError', 'PartialParseError', 'InputError', 'ParsedObject', 'ParsingRule',
@@ -92,8 +95,9 @@ def run(chk):
     chk.assumptions += ['names excluded by the property: leading underscore, Python keywords, documented API of the generated '
                         'module; additionally the words the grammar language itself reserves are not used as new names',
                         'known findings are identified by (pool name, role, failure signature)']
-    taken = {'Item', 'Word', 'Pair', 'key', 'val', 'gap', 'Wrap', 'p', 'tmp', 'Box', 'q', 'it', 'n', 'stars', 'start'}
-    fixed = [n for n in dict.fromkeys(TEMPORARIES + BUILTINS + CONSTRUCTORS + PLAIN) if usable(n, taken)]
+    taken = {'Item', 'Word', 'Pair', 'key', 'val', 'gap', 'Wrap', 'p', 'tmp', 'Box', 'q', 'it', 'n', 'stars', 'start', 'm', 'xs',
+             'Cnt', 'more', 'Zlast'}
+    fixed = [n for n in dict.fromkeys(TEMPORARIES + BUILTINS + CONSTRUCTORS + RUNTIME_LOCALS + PLAIN) if usable(n, taken)]
     if chk.tier == 'quick':
         fixed = fixed[::1]
     cases = enumerate_cases(chk, fixed, 'MC_C20(fixed pool)')
